@@ -22,6 +22,18 @@ impl Keys {
                 _ => i * 64 + ctx.rng.below(3), // clustered
             })
             .collect();
+        let mut univ: Vec<u64> = univ;
+        // boundary keys: under the identity-like hasher they are boundary *hash values* (a fingerprint hash of
+        // u64::MAX or 0, the top bit alone, both sides of 2^32)
+        if n >= 4 && ctx.rng.chance(1, 2) {
+            for b in [0u64, u64::MAX, u64::MAX - 1, 1u64 << 63, (1u64 << 32) - 1, 1u64 << 32] {
+                if ctx.rng.chance(1, 2) {
+                    let at = ctx.rng.below(univ.len() as u64) as usize;
+                    univ[at] = b;
+                }
+            }
+            ctx.stat("keys.boundary", 1);
+        }
         Keys { univ }
     }
     pub fn pick(&self, ctx: &mut Ctx) -> u64 {
